@@ -1,5 +1,6 @@
 import SockModel.Spec.C01
 import SockModel.Spec.C06
+import SockModel.Model.ToDosStepLemmas
 /-!
 # Spec.C07 - the timeout clauses as an executable predicate over typed observations, and the proof that
 the model satisfies them for every history
@@ -998,3 +999,573 @@ example : histOk [.recv 1 2147483648 [.timedOut] (.take 0)] = false := by decide
 example : (specRun () (C01.modelTrace {} [.recv 1 2147483648 [.timedOut] (.take 0)])).toBool = false := by decide
 
 end SockModel.Spec.C07
+
+/-! ## Driver::Step: the predicate
+
+One `Obs` per line of a `todos` transcript.  A step is observed as `begin <clock>`, then for every task
+the library invoked `ran <id> <clock>`, the socket wait `poll <timeout ms> <clock>`, and `end <clock>`; the
+clock is observed, never simulated.  The reference scheduler `RefSched.SpSt` of `Spec/C06.lean` (a bag of
+(task, due time, scheduling order), maintained from the operation lines and the bodies of the tasks
+reported as run) tells what is pending. -/
+namespace SockModel.Spec.C07.Step
+open SockModel SockModel.Deadline SockModel.ToDos SockModel.ToDos.RefSched
+
+/-- one `-> ...` line inside a step (`none` = the field is not a numeral) -/
+inductive Item where
+  | begin (n : Option Int)
+  | ran (id : Option Nat) (now : Option Int)
+  | poll (ms : Option Int) (atNs : Option Int)
+  | fin (n : Option Int)                         -- `end n`
+  | crash (w : String)
+  | hang (w : String)
+  | other
+  deriving Repr, DecidableEq
+
+/-- one operation line with what was observed after it -/
+inductive Obs where
+  /-- an operation outside a step; `stray` = a `crash` / `hang` / `ran` line reported after it -/
+  | user (op : Op) (stray : Option String)
+  | step (t : Int) (items : List Item)
+  /-- the harness process crashed / hung between operations -/
+  | abort (msg : String)
+  deriving Repr
+
+/-- what the observer has seen of the current step -/
+structure Acc where
+  sp : SpSt
+  pollAt : Int               -- the clock at the (last) socket wait
+  ranCount : Nat := 0
+  polls : List Int := []     -- timeouts of the socket waits, in order
+
+def stepItem (a : Acc) : Item → Except String Acc
+  | .ran (some id) (some now) =>
+    if a.polls ≠ [] then .error "task invoked after the socket wait of the same step"
+    else match a.sp.ran id now with
+      | .ok sp => .ok { a with sp := sp, ranCount := a.ranCount + 1 }
+      | .error e => .error e
+  | .ran _ _ => .error "bad ran observation"
+  | .poll (some ms) (some atNs) => .ok { a with polls := a.polls ++ [ms], pollAt := atNs }
+  | .poll _ _ => .error "bad poll observation"
+  | .fin (some n) =>
+    if n < a.sp.now then .error "clock went backwards"
+    -- C07: Step(T >= 0) blocks no longer than T in total (virtual time spent outside tasks is the poll)
+    else .ok { a with sp := { a.sp with now := n } }
+  | .fin none => .error "bad end"
+  | .crash w => .error ("crash: " ++ w)
+  | .hang w => .error ("hang: " ++ w)
+  | _ => .ok a
+
+def stepItems (a : Acc) : List Item → Except String Acc
+  | [] => .ok a
+  | i :: is => match stepItem a i with | .ok a' => stepItems a' is | .error e => .error e
+
+def emin (acc : Option Int) (p : Pending) : Option Int :=
+  match acc with
+  | none => some p.when
+  | some a => some (min a p.when)
+
+/-- due time of the earliest pending ToDo -/
+def earliest (pend : List Pending) : Option Int := pend.foldl emin none
+
+/-- C07 on the socket wait of a step with timeout `t`: bounded by `t` from above; never unlimited and never
+past the due time of the earliest pending ToDo; the full timeout when idle -/
+def waitClause (t : Int) (a : Acc) : Except String (List String) :=
+  match a.polls with
+  | [ms] =>
+    if t ≥ 0 ∧ (ms < 0 ∨ ms > t) then .error s!"step({t}) waits {ms} ms for sockets: not bounded by its timeout"
+    else match earliest a.sp.pend with
+      | some w =>
+        if ms < 0 then .error s!"step waits without limit although a ToDo is due at {w}"
+        else if w > a.pollAt ∧ a.pollAt + ms * nsPerMs > w then
+          .error s!"step sleeps {ms} ms from {a.pollAt}, past the due time {w} of the earliest pending ToDo"
+        else .ok ["wait.todo"]
+      | none =>
+        if a.ranCount = 0 ∧ ms ≠ t ∧ ¬ (t < 0 ∧ ms < 0) then
+          .error s!"idle step({t}) waits {ms} ms instead of the full timeout"
+        else .ok ["wait.full"]
+  | _ => .error s!"expected exactly one socket wait per step, saw {a.polls.length}"
+
+/-- spec check of one step's observations -/
+def specStepObs (sp : SpSt) (t : Int) (items : List Item) : Except String (SpSt × List String) :=
+  match items with
+  | .begin (some start) :: _ =>
+    if start < sp.now then .error "clock went backwards"
+    else
+      let dueAtStart := sp.pend.any (fun p => p.when ≤ start)
+      match stepItems { sp := { sp with now := start }, pollAt := start } items with
+      | .error e => .error e
+      | .ok a =>
+        -- promptness: a step that starts at/after the due time of some pending task runs at least one
+        if dueAtStart ∧ a.ranCount = 0 then .error s!"step at {start} ran nothing although a task was due"
+        else match waitClause t a with
+          | .error e => .error e
+          | .ok tags => .ok (a.sp, tags)
+  | .begin none :: _ => .error "bad begin"
+  | _ => .error "missing begin observation"
+
+/-- the predicate for one line of the transcript; the second component are coverage tags -/
+def specStep (sp : SpSt) : Obs → Except String (SpSt × List String)
+  | .step t items => specStepObs sp t items
+  | .user _ (some o) => .error ("unexpected observation outside a step: " ++ o)
+  | .user op none => .ok (sp.user op, [])
+  | .abort msg => .error msg
+
+def specRun (sp : SpSt) : List Obs → Except String SpSt
+  | [] => .ok sp
+  | o :: os => match specStep sp o with | .ok (sp', _) => specRun sp' os | .error e => .error e
+
+/-! ## Driver::Step: the observations of the MODEL -/
+
+def evItem (atNs : Int) : Event → Item
+  | .ran id _ now _ _ => .ran (some id) (some now)
+  | .poll ms => .poll (some ms) (some atNs)
+  | .fuel => .other
+
+/-- the clock at which `step` hands over to the socket wait -/
+def pollAtOf (fuel : Nat) (t : Int) (m : St) : Int :=
+  if m.todos.isEmpty then m.now else (stepTodos fuel (Deadline.make t m.now) m).2.now
+
+/-- what the model lets an observer see of one operation: for a step the clock at entry, the events it
+appended to its log (oldest first - exactly what the driver compares the implementation with), the clock
+at exit -/
+def modelObs (fuel : Nat) (m : St) : Op → Obs
+  | .step t =>
+    let m' := userOp true fuel m (.step t)
+    .step t (.begin (some m.now) ::
+      ((m'.log.take (m'.log.length - m.log.length)).reverse.map (evItem (pollAtOf fuel t m)) ++ [.fin (some m'.now)]))
+  | op => .user op none
+
+def modelTrace (fuel : Nat) (m : St) : List Op → List Obs
+  | [] => []
+  | op :: ops => modelObs fuel m op :: modelTrace fuel (userOp true fuel m op) ops
+
+
+/-! ## Driver::Step: the model satisfies the predicate -/
+
+theorem foldl_emin_some (a : Int) (l : List Pending) :
+    ∃ w, l.foldl emin (some a) = some w ∧ w ≤ a ∧ (∀ p ∈ l, w ≤ p.when) ∧ (w = a ∨ ∃ p ∈ l, w = p.when) := by
+  induction l generalizing a with
+  | nil => exact ⟨a, rfl, Int.le_refl _, by simp, Or.inl rfl⟩
+  | cons p l ih =>
+    obtain ⟨w, h1, h2, h3, h4⟩ := ih (min a p.when)
+    refine ⟨w, by simp only [List.foldl_cons, emin]; exact h1, by omega, ?_, ?_⟩
+    · intro q hq
+      rcases List.mem_cons.mp hq with rfl | hq
+      · omega
+      · exact h3 q hq
+    · rcases h4 with h4 | ⟨q, hq, h4⟩
+      · by_cases hle : a ≤ p.when
+        · left; omega
+        · right; exact ⟨p, List.mem_cons_self, by omega⟩
+      · exact Or.inr ⟨q, List.mem_cons_of_mem _ hq, h4⟩
+
+theorem earliest_nil : earliest [] = none := rfl
+
+theorem earliest_cons (p : Pending) (l : List Pending) :
+    ∃ w, earliest (p :: l) = some w ∧ (∀ q ∈ p :: l, w ≤ q.when) ∧ ∃ q ∈ p :: l, w = q.when := by
+  obtain ⟨w, h1, h2, h3, h4⟩ := foldl_emin_some p.when l
+  refine ⟨w, by simp only [earliest, List.foldl_cons, emin]; exact h1, ?_, ?_⟩
+  · intro q hq
+    rcases List.mem_cons.mp hq with rfl | hq
+    · exact h2
+    · exact h3 q hq
+  · rcases h4 with h4 | ⟨q, hq, h4⟩
+    · exact ⟨p, List.mem_cons_self, h4⟩
+    · exact ⟨q, List.mem_cons_of_mem _ hq, h4⟩
+
+def ranOf : Event → Option (Nat × Int)
+  | .ran id _ now _ _ => some (id, now)
+  | _ => none
+
+theorem ransOf_eq (pre : List Event) : ransOf pre = pre.reverse.filterMap ranOf := by
+  unfold ransOf
+  congr 1
+
+/-- the observer's fold over the task invocations of a step is the replay of `Spec/C06.lean` -/
+theorem stepItems_rans (atNs : Int) (L : List Event) (hnp : ∀ ev ∈ L, ∀ ms, ev ≠ .poll ms) (sp : SpSt) (pa : Int)
+    (rc : Nat) (sp' : SpSt) (h : replayRans sp (L.filterMap ranOf) = .ok sp') (rest : List Item) :
+    ∃ n, n = rc + (L.filterMap ranOf).length ∧
+      stepItems { sp := sp, pollAt := pa, ranCount := rc, polls := [] } (L.map (evItem atNs) ++ rest)
+        = stepItems { sp := sp', pollAt := pa, ranCount := n, polls := [] } rest := by
+  induction L generalizing sp rc with
+  | nil =>
+    simp only [List.filterMap_nil, replayRans] at h
+    cases h
+    exact ⟨rc, by simp, rfl⟩
+  | cons ev L ih =>
+    have hnp' : ∀ ev ∈ L, ∀ ms, ev ≠ .poll ms := fun e he => hnp e (List.mem_cons_of_mem _ he)
+    cases ev with
+    | poll ms => exact absurd rfl (hnp _ List.mem_cons_self ms)
+    | fuel =>
+      have hf : (Event.fuel :: L).filterMap ranOf = L.filterMap ranOf := rfl
+      rw [hf] at h ⊢
+      obtain ⟨n, hn, heq⟩ := ih hnp' sp rc h
+      exact ⟨n, hn, by simp only [List.map_cons, List.cons_append, stepItems, evItem, stepItem]; exact heq⟩
+    | ran id w now rs seq =>
+      have hf : (Event.ran id w now rs seq :: L).filterMap ranOf = (id, now) :: L.filterMap ranOf := rfl
+      rw [hf] at h ⊢
+      simp only [replayRans] at h
+      cases hr : sp.ran id now with
+      | error e => rw [hr] at h; cases h
+      | ok sp1 =>
+        rw [hr] at h
+        simp only at h
+        obtain ⟨n, hn, heq⟩ := ih hnp' sp1 (rc + 1) h
+        refine ⟨n, by simp only [List.length_cons]; omega, ?_⟩
+        simp only [List.map_cons, List.cons_append, stepItems, evItem, stepItem, ne_eq, not_true_eq_false,
+          if_false, hr]
+        exact heq
+
+theorem ransOf_snoc_ne (pre : List Event) (id : Nat) (w now : Int) (rs : List Entry) (seq : Nat) :
+    ransOf (pre ++ [.ran id w now rs seq]) ≠ [] := by
+  rw [ransOf_eq]
+  simp [ranOf]
+
+/-- the log segment of `StepTodos`: no socket wait in it; and if no task was invoked the list is untouched
+and (given fuel) its front is not due -/
+theorem stepTodos_log (fuel : Nat) (d : Deadline) (s : St) :
+    ∃ pre, (stepTodos fuel d s).2.log = pre ++ s.log ∧ (∀ ev ∈ pre, ∀ ms, ev ≠ .poll ms) ∧
+      (ransOf pre = [] → (stepTodos fuel d s).2.todos = s.todos ∧
+        (0 < fuel → ∀ f rest, s.todos = f :: rest → f.when - d.now > 0)) := by
+  have hlogf : ∀ (ops : List BodyOp) (s0 : St), (ops.foldl applyOp s0).log = s0.log := by
+    intro ops
+    induction ops with
+    | nil => intro s0; rfl
+    | cons op ops ih2 =>
+      intro s0
+      simp only [List.foldl_cons]
+      rw [ih2]
+      cases op <;> simp only [applyOp] <;> (try split) <;> rfl
+  induction fuel generalizing d s with
+  | zero =>
+    refine ⟨[.fuel], rfl, ?_, fun _ => ⟨rfl, fun h => absurd h (Nat.lt_irrefl 0)⟩⟩
+    intro ev hev ms h; simp at hev; subst hev; cases h
+  | succ fuel ih =>
+    unfold stepTodos
+    cases ht : s.todos with
+    | nil =>
+      simp only
+      exact ⟨[], by simp, by simp, fun _ => ⟨ht, fun _ f rest h => by cases h⟩⟩
+    | cons front rest0 =>
+      simp only
+      split
+      · rename_i hnd
+        exact ⟨[], by simp, by simp, fun _ => ⟨ht, fun _ f rest h => by cases h; exact hnd⟩⟩
+      · have hone : ∀ ev ∈ [Event.ran front.id front.when d.now rest0 front.seq], ∀ ms, ev ≠ .poll ms := by
+          intro ev hev ms h; simp at hev; subst hev; cases h
+        split
+        · refine ⟨[.ran front.id front.when d.now rest0 front.seq], by rw [hlogf]; rfl, hone, ?_⟩
+          intro h; exact absurd h (ransOf_snoc_ne [] _ _ _ _ _)
+        · split
+          · obtain ⟨pre, hpre, hnp, _⟩ := ih (d.tick ((s.body front.id).foldl applyOp
+                { s with todos := rest0, log := .ran front.id front.when d.now rest0 front.seq :: s.log }).now)
+              ((s.body front.id).foldl applyOp
+                { s with todos := rest0, log := .ran front.id front.when d.now rest0 front.seq :: s.log })
+            refine ⟨pre ++ [.ran front.id front.when d.now rest0 front.seq], by rw [hpre, hlogf]; simp, ?_, ?_⟩
+            · intro ev hev
+              rcases List.mem_append.mp hev with h | h
+              · exact hnp ev h
+              · exact hone ev h
+            · intro h; exact absurd h (ransOf_snoc_ne pre _ _ _ _ _)
+          · refine ⟨[.ran front.id front.when d.now rest0 front.seq], by rw [hlogf]; rfl, hone, ?_⟩
+            intro h; exact absurd h (ransOf_snoc_ne [] _ _ _ _ _)
+
+theorem pollSockets_facts (t : Int) (s : St) :
+    (pollSockets true t s).log = .poll (toMsec t) :: s.log ∧ s.now ≤ (pollSockets true t s).now := by
+  unfold pollSockets
+  simp only [if_true]
+  split
+  · exact ⟨rfl, Int.le_refl _⟩
+  · split
+    · rename_i hpos
+      refine ⟨rfl, ?_⟩
+      have := Int.mul_nonneg (Int.le_of_lt hpos) (by decide : (0 : Int) ≤ nsPerMs)
+      simp only; omega
+    · exact ⟨rfl, Int.le_refl _⟩
+
+theorem toMsec_range {x : Int} (h : 0 ≤ x) : 0 ≤ toMsec x ∧ toMsec x ≤ x := by
+  unfold toMsec
+  split
+  · unfold intMax at *; omega
+  · split
+    · unfold intMax at *; omega
+    · omega
+
+theorem make_now (t now : Int) : (Deadline.make t now).now = now := by
+  unfold Deadline.make; split
+  · rfl
+  · split <;> rfl
+
+theorem specSt_now_eta (sp : SpSt) (n : Int) (h : sp.now = n) : ({ sp with now := n } : SpSt) = sp := by
+  subst h; rfl
+
+/-- the domain of a step: the timeout is in the documented range `T < 2^31` ms (beyond it `ToMsec` clamps
+the idle wait, which then is not "the full T") -/
+def opOk : Op → Bool
+  | .step t => decide (t ≤ intMax)
+  | _ => true
+
+theorem waitClause_ok {t : Int} {a : Acc} {ms : Int} (hp : a.polls = [ms]) (h1 : t ≥ 0 → 0 ≤ ms ∧ ms ≤ t)
+    (h2 : ∀ w, earliest a.sp.pend = some w → 0 ≤ ms ∧ ¬ (w > a.pollAt ∧ a.pollAt + ms * nsPerMs > w))
+    (h3 : earliest a.sp.pend = none → a.ranCount = 0 → (ms = t ∨ (t < 0 ∧ ms < 0))) :
+    ∃ tags, waitClause t a = .ok tags := by
+  unfold waitClause
+  rw [hp]
+  simp only
+  rw [if_neg (by intro ⟨h0, h⟩; have := h1 h0; omega)]
+  cases he : earliest a.sp.pend with
+  | none =>
+    simp only
+    rw [if_neg (by
+      intro ⟨hr, hne, hnn⟩
+      rcases h3 he hr with h | h
+      · exact hne h
+      · exact hnn h)]
+    exact ⟨_, rfl⟩
+  | some w =>
+    obtain ⟨g1, g2⟩ := h2 w he
+    simp only
+    rw [if_neg (by omega), if_neg g2]
+    exact ⟨_, rfl⟩
+
+theorem specStepObs_ok {sp : SpSt} {t start : Int} {rest : List Item} {a : Acc} {tags : List String}
+    (h0 : ¬ start < sp.now)
+    (hit : stepItems { sp := { sp with now := start }, pollAt := start } rest = .ok a)
+    (hpr : ¬ ((sp.pend.any fun p => decide (p.when ≤ start)) = true ∧ a.ranCount = 0))
+    (hw : waitClause t a = .ok tags) :
+    specStepObs sp t (.begin (some start) :: rest) = .ok (a.sp, tags) := by
+  simp only [specStepObs, if_neg h0, stepItems, stepItem, hit, if_neg hpr, hw]
+
+/-- one `Step` of the model is accepted clause by clause, and observer and model stay related -/
+theorem step_accepted (fuel : Nat) (hf : 0 < fuel) (t : Int) (ht : t ≤ intMax) (m : St) (sp : SpSt) (inv : TInv m)
+    (r : R m sp) :
+    ∃ sp' tags, specStep sp (modelObs fuel m (.step t)) = .ok (sp', tags) ∧ R (userOp true fuel m (.step t)) sp' := by
+  have hsp0 : ({ sp with now := m.now } : SpSt) = sp := specSt_now_eta sp m.now r.now
+  have h0 : ¬ m.now < sp.now := by rw [r.now]; exact Int.lt_irrefl _
+  simp only [modelObs, specStep]
+  simp only [userOp, step]
+  by_cases hemp : m.todos.isEmpty = true
+  · -- no ToDo pending: the socket wait gets the timeout itself
+    have hnil : m.todos = [] := by simpa using hemp
+    have hpend : sp.pend = [] := by
+      have := r.pend; rw [hnil] at this; simpa using this.eq_nil
+    obtain ⟨hlog, hmono⟩ := pollSockets_facts t m
+    simp only [hemp, if_true, hlog, pollAtOf]
+    have htake : (Event.poll (toMsec t) :: m.log).take ((Event.poll (toMsec t) :: m.log).length - m.log.length)
+        = [Event.poll (toMsec t)] := by
+      have : (Event.poll (toMsec t) :: m.log).length - m.log.length = 1 := by simp
+      rw [this]; rfl
+    rw [htake]
+    have hit : stepItems { sp := { sp with now := m.now }, pollAt := m.now }
+        ([Event.poll (toMsec t)].reverse.map (evItem m.now) ++ [.fin (some (pollSockets true t m).now)])
+        = .ok { sp := { sp with now := (pollSockets true t m).now }, pollAt := m.now, ranCount := 0, polls := [toMsec t] } := by
+      rw [hsp0]
+      simp only [List.reverse_cons, List.reverse_nil, List.nil_append, List.map_cons, List.map_nil, List.cons_append,
+        evItem, stepItems, stepItem]
+      rw [if_neg (by rw [r.now]; omega)]
+    obtain ⟨tags, hw⟩ := waitClause_ok (t := t) (ms := toMsec t)
+      (a := { sp := { sp with now := (pollSockets true t m).now }, pollAt := m.now, ranCount := 0, polls := [toMsec t] })
+      rfl (fun h0 => by have := toMsec_range h0; omega)
+      (fun w hw => by simp only [hpend, earliest_nil] at hw; cases hw)
+      (fun _ _ => by
+        by_cases hneg : t < 0
+        · exact Or.inr ⟨hneg, C01.toMsec_neg hneg⟩
+        · exact Or.inl (SendLoop.toMsec_small (by omega) ht))
+    refine ⟨_, tags, specStepObs_ok h0 hit ?_ hw, R_pollSockets true t r⟩
+    rw [hpend]; simp
+  · -- ToDos pending: `StepTodos`, then the socket wait with what it returned
+    have hne : m.todos.isEmpty = false := by simpa using hemp
+    have hmake := make_now t m.now
+    obtain ⟨pre, sp1, hlog, hrep, r1⟩ := stepTodos_accepted fuel (Deadline.make t m.now) m sp inv r hmake
+    obtain ⟨pre', hlog', hnp, hnoran⟩ := stepTodos_log fuel (Deadline.make t m.now) m
+    have hpp : pre' = pre := List.append_cancel_right (hlog'.symm.trans hlog)
+    rw [hpp] at hnp hnoran
+    have hsorted := (inv_stepTodos fuel (Deadline.make t m.now) inv).sorted
+    cases hst : stepTodos fuel (Deadline.make t m.now) m with
+    | mk ms0 s' =>
+      rw [hst] at hlog r1 hnoran hsorted
+      simp only at hlog r1 hnoran hsorted
+      obtain ⟨hplog, hmono⟩ := pollSockets_facts ms0 s'
+      simp only [hne, Bool.false_eq_true, if_false, hst, hplog, pollAtOf, hlog]
+      have htake : (Event.poll (toMsec ms0) :: (pre ++ m.log)).take
+          ((Event.poll (toMsec ms0) :: (pre ++ m.log)).length - m.log.length) = Event.poll (toMsec ms0) :: pre := by
+        have hl : (Event.poll (toMsec ms0) :: (pre ++ m.log)).length - m.log.length = (Event.poll (toMsec ms0) :: pre).length := by
+          simp only [List.length_cons, List.length_append]; omega
+        rw [hl]
+        have : Event.poll (toMsec ms0) :: (pre ++ m.log) = (Event.poll (toMsec ms0) :: pre) ++ m.log := rfl
+        rw [this, List.take_left']
+        rfl
+      rw [htake]
+      rw [ransOf_eq] at hrep hnoran
+      obtain ⟨n, hn, heq⟩ := stepItems_rans s'.now pre.reverse
+        (fun ev hev => hnp ev (List.mem_reverse.mp hev)) sp m.now 0 sp1 hrep
+        [.poll (some (toMsec ms0)) (some s'.now), .fin (some (pollSockets true ms0 s').now)]
+      simp only [Nat.zero_add] at hn
+      have hit : stepItems { sp := { sp with now := m.now }, pollAt := m.now }
+          ((Event.poll (toMsec ms0) :: pre).reverse.map (evItem s'.now) ++ [.fin (some (pollSockets true ms0 s').now)])
+          = .ok { sp := { sp1 with now := (pollSockets true ms0 s').now }, pollAt := s'.now, ranCount := n,
+                  polls := [toMsec ms0] } := by
+        rw [hsp0]
+        simp only [List.reverse_cons, List.map_append, List.map_cons, List.map_nil, List.append_assoc, List.cons_append,
+          List.nil_append, evItem]
+        rw [heq]
+        simp only [stepItems, stepItem, List.nil_append]
+        rw [if_neg (by rw [r1.now]; omega)]
+      -- promptness
+      have hprompt : ¬ ((sp.pend.any fun p => decide (p.when ≤ m.now)) = true ∧ n = 0) := by
+        intro ⟨hdue, hn0⟩
+        have hk : pre.reverse.filterMap ranOf = [] := List.eq_nil_of_length_eq_zero (by omega)
+        obtain ⟨_, hfront⟩ := hnoran hk
+        obtain ⟨p, hp, hpw⟩ := List.any_eq_true.mp hdue
+        have hpw' : p.when ≤ m.now := of_decide_eq_true hpw
+        have hp' := r.pend.mem_iff.mp hp
+        obtain ⟨e, he, rfl⟩ := List.mem_map.mp hp'
+        cases htd : m.todos with
+        | nil => rw [htd] at he; cases he
+        | cons f rest =>
+          have hnd := hfront hf f rest htd
+          rw [hmake] at hnd
+          have hs := inv.sorted
+          rw [htd] at hs he
+          have hs' := List.pairwise_cons.mp hs
+          rcases List.mem_cons.mp he with rfl | he
+          · simp only [key] at hpw'; omega
+          · have := hs'.1 e he; simp only [key] at hpw'; omega
+      -- the socket wait
+      obtain ⟨tags, hw⟩ := waitClause_ok (t := t) (ms := toMsec ms0)
+        (a := { sp := { sp1 with now := (pollSockets true ms0 s').now }, pollAt := s'.now, ranCount := n,
+                polls := [toMsec ms0] })
+        rfl
+        (fun h0 => by
+          have := stepTodos_bounded fuel t h0 (Deadline.make t m.now) m hmake (DBound_make t m.now) ms0 s' hst
+          have := toMsec_range this.1; omega)
+        (fun w hw => by
+          simp only at hw
+          cases htd' : s'.todos with
+          | nil =>
+            have hpend : sp1.pend = [] := by
+              have := r1.pend; rw [htd'] at this; simpa using this.eq_nil
+            rw [hpend, earliest_nil] at hw; cases hw
+          | cons f rest =>
+            obtain ⟨h0, hpast⟩ := stepTodos_not_past fuel t m ms0 s' hst f rest htd'
+            have hperm := r1.pend
+            rw [htd'] at hperm hsorted
+            cases hpd : sp1.pend with
+            | nil => rw [hpd] at hperm; have := hperm.symm.eq_nil; simp at this
+            | cons p ps =>
+              obtain ⟨w', hw', hmin, q, hq, hwq⟩ := earliest_cons p ps
+              rw [hpd, hw'] at hw
+              cases hw
+              -- the earliest pending due time is that of the front of the model's list
+              have hs' := List.pairwise_cons.mp hsorted
+              rw [hpd] at hperm
+              have hfm : key f ∈ p :: ps := hperm.mem_iff.mpr (by simp)
+              have h1 := hmin _ hfm
+              have hq' := hperm.mem_iff.mp hq
+              obtain ⟨e, he, hqe⟩ := List.mem_map.mp hq'
+              have h2 : f.when ≤ e.when := by
+                rcases List.mem_cons.mp he with rfl | he
+                · exact Int.le_refl _
+                · exact hs'.1 e he
+              have hqw : q.when = e.when := by rw [← hqe]; rfl
+              have hkf : (key f).when = f.when := rfl
+              refine ⟨h0, ?_⟩
+              intro ⟨hgt, hover⟩
+              simp only at hgt hover
+              have := hpast (by omega)
+              omega)
+        (fun hnone hn0 => by
+          simp only at hnone hn0
+          exfalso
+          have hk : pre.reverse.filterMap ranOf = [] := List.eq_nil_of_length_eq_zero (by omega)
+          have htd := (hnoran hk).1
+          cases hpd : sp1.pend with
+          | nil =>
+            have hperm := r1.pend
+            rw [hpd] at hperm
+            have := hperm.symm.eq_nil
+            rw [htd] at this
+            have hmt : m.todos = [] := by simpa using this
+            rw [hmt] at hne; simp at hne
+          | cons p ps =>
+            obtain ⟨w', hw', _⟩ := earliest_cons p ps
+            rw [hpd, hw'] at hnone; cases hnone)
+      exact ⟨_, tags, specStepObs_ok h0 hit hprompt hw, R_pollSockets true ms0 r1⟩
+
+/-- **The clauses that `./check C07` (and `./check C06`) evaluate on the implementation's `Driver::Step`
+transcripts are a theorem of the model**: for every history of construct / Shift / Cancel / drop / clock / Step
+operations of any length, with arbitrary task bodies (re-scheduling, cancelling, creating and dropping ToDos
+and letting time pass from inside tasks), every timeout and every due time (also >= 2^31 ms ahead), the
+observations of the model are accepted: every task invocation by the reference scheduler of `Spec/C06.lean`
+(scheduled, not early, in due order), a step that starts with a due task runs one, no task after the socket
+wait, exactly one socket wait per step, its timeout within `[0, T]` for `T >= 0`, never unlimited and never past
+the due time of the earliest pending ToDo while one is pending, the full `T` when idle, and the clock never
+runs backwards.  `fuel` bounds the number of task invocations per step (the harness stops at 3000). -/
+theorem model_satisfies_spec (fuel : Nat) (hf : 0 < fuel) (history : List Op) (hok : history.all opOk = true) :
+    ∃ s, specRun {} (modelTrace fuel {} history) = .ok s := by
+  suffices H : ∀ (ops : List Op) (m : St) (sp : SpSt), TInv m → R m sp → ops.all opOk = true →
+      ∃ s, specRun sp (modelTrace fuel m ops) = .ok s from
+    H history {} {} inv_init ⟨List.Perm.refl _, rfl, rfl, rfl, rfl, rfl⟩ hok
+  intro ops
+  induction ops with
+  | nil => intro m sp _ _ _; exact ⟨sp, rfl⟩
+  | cons op ops ih =>
+    intro m sp inv r hok
+    simp only [List.all_cons, Bool.and_eq_true] at hok
+    have inv' := inv_userOp true fuel inv op
+    simp only [modelTrace, specRun]
+    have huser : ∀ (o : Op), (∀ t, o ≠ .step t) → modelObs fuel m o = .user o none := by
+      intro o ho; cases o <;> first | rfl | exact absurd rfl (ho _)
+    cases op with
+    | step t =>
+      obtain ⟨sp', tags, h1, r'⟩ := step_accepted fuel hf t (of_decide_eq_true hok.1) m sp inv r
+      rw [h1]
+      exact ih _ _ inv' r' hok.2
+    | new id w body =>
+      rw [huser _ (by intro t h; cases h)]
+      exact ih _ _ inv' (R_user true fuel inv r _ (by intro t h; cases h)) hok.2
+    | newIn id ms body =>
+      rw [huser _ (by intro t h; cases h)]
+      exact ih _ _ inv' (R_user true fuel inv r _ (by intro t h; cases h)) hok.2
+    | newIdle id body =>
+      rw [huser _ (by intro t h; cases h)]
+      exact ih _ _ inv' (R_user true fuel inv r _ (by intro t h; cases h)) hok.2
+    | call o =>
+      rw [huser _ (by intro t h; cases h)]
+      exact ih _ _ inv' (R_user true fuel inv r _ (by intro t h; cases h)) hok.2
+    | clock ns =>
+      rw [huser _ (by intro t h; cases h)]
+      exact ih _ _ inv' (R_user true fuel inv r _ (by intro t h; cases h)) hok.2
+
+
+/-! ### non-vacuity: a history the hypothesis admits, and observations the predicate rejects -/
+
+def exampleHistory : List Op := [
+  .clock 1000000000,
+  .new 1 1003000000 [.adv 2000000],                  -- due in 3 ms; its body takes 2 ms
+  .new 2 1003000000 [.shift 2 5000000000],           -- tied with 1; re-schedules itself far ahead
+  .new 3 1000500000 [.newIn 4 1],                    -- due in 0.5 ms; creates ToDo 4 from inside the task
+  .step 17,                                          -- waits 0 ms (sub-ms remainder), runs nothing
+  .step 17, .step (-1), .step 0, .call (.cancel 2), .step 5, .step 2147483647,
+  .new 5 9000000000000000 [], .step (-1)]            -- due more than 2^31 ms ahead: clamped, not unlimited
+
+example : exampleHistory.all opOk = true := by decide
+example : (specRun {} (modelTrace 10 {} exampleHistory)).toBool = true := by decide
+
+/-- a wait that is not bounded by the timeout (the seeded change C07_agentB) is rejected -/
+example : (specStep {} (.step 1 [.begin (some 0), .poll (some (-3)) (some 0), .fin (some 0)])).toBool = false := by decide
+/-- a wait past the due time of the earliest pending ToDo is rejected -/
+example : (specRun {} [.user (.new 1 3000000 []) none,
+    .step 17 [.begin (some 0), .poll (some 5) (some 0), .fin (some 5000000)]]).toBool = false := by decide
+/-- an unlimited wait while a ToDo is pending (finding F6) is rejected -/
+example : (specRun {} [.user (.new 1 3000000 []) none,
+    .step (-1) [.begin (some 0), .poll (some (-1)) (some 0), .fin (some 0)]]).toBool = false := by decide
+/-- an idle step that does not wait the full timeout is rejected -/
+example : (specStep {} (.step 17 [.begin (some 0), .poll (some 16) (some 0), .fin (some 16000000)])).toBool = false := by decide
+/-- a due task that is not run is rejected -/
+example : (specRun {} [.user (.new 1 0 []) none,
+    .step 0 [.begin (some 0), .poll (some 0) (some 0), .fin (some 0)]]).toBool = false := by decide
+/-- the hypothesis is needed: beyond the documented domain the idle wait is clamped -/
+example : (specRun {} (modelTrace 10 {} [.step 2147483648])).toBool = false := by decide
+
+end SockModel.Spec.C07.Step
